@@ -403,6 +403,11 @@ class World(object):
         elif op == 'remove':
             with self.tm.session():
                 self.tm.remove_tile_coords([self.coord[ev['tile']]])
+        elif op == 'backdate':
+            from mapproxy.cache.tile import Tile
+            cache = self._mk_cache(self.root)
+            ns = BASE * 10 ** 9 + 5 * 10 ** 8            # tick 1
+            os.utime(cache.tile_location(Tile(self.coord[ev['tile']])), ns=(ns, ns), follow_symlinks=False)
         elif op == 'fail':
             _Env.up = False
         elif op == 'recover':
@@ -579,6 +584,8 @@ def event_of(label):
         return {'op': 'set', 'rule': {'kind': str(args[0]['kind']), 'arg': int(args[0]['arg'])}}
     if name == 'RemoveTile':
         return {'op': 'remove', 'tile': str(args[0])}
+    if name == 'Backdate':
+        return {'op': 'backdate', 'tile': str(args[0])}
     if name == 'UpstreamFail':
         return {'op': 'fail'}
     if name == 'UpstreamRecover':
@@ -586,9 +593,9 @@ def event_of(label):
     raise tlc.MachineryError('unknown action label %r' % label)
 
 
-def consts_for(names, path, trunc, rules, seedrules, prec, maxclock):
+def consts_for(names, path, trunc, rules, seedrules, prec, maxclock, backdating=True):
     meta_of = {n: 'm%d' % (i // 2 + 1) for i, n in enumerate(names)}
-    return dict(Tiles=set(names), Order=tuple(names), MetaOf=meta_of, Path=path, MaxClock=maxclock, StoreTrunc=bool(trunc),
+    return dict(Backdating=bool(backdating), Tiles=set(names), Order=tuple(names), MetaOf=meta_of, Path=path, MaxClock=maxclock, StoreTrunc=bool(trunc),
                 Rules=rules_tla(rules), SeedRules=rules_tla(seedrules), ExpirePrecedence=prec)
 
 
@@ -747,8 +754,11 @@ def detect_precedence(ctx):
     return 'task'
 
 
-def props_for(prec):
-    return [p for p in PROPS if not (prec == 'serving' and p == 'PropSeedStale')]
+def props_for(prec, path='single', trunc=True, backdating=False):
+    """PropSeedStale does not hold on the meta path once the tiles of a meta tile are of different age (the seed walker asks
+    about the main tile only: listed finding, checked on its own in model_checks)"""
+    mixed = path == 'meta' and not trunc and backdating
+    return [p for p in PROPS if not (p == 'PropSeedStale' and (prec == 'serving' or mixed))]
 
 
 MC_DEFS = 'MCBound == steps <= %d\nMCView == <<cache, rule, fileM, up, clock, log, steps>>'
@@ -763,15 +773,16 @@ def model_checks(ctx, prec):
     rules, seedrules = (FULL_RULES, FULL_SEED) if thorough else (QUICK_RULES, QUICK_SEED)
     results = {}
 
-    def one(name, path, trunc, steps, graph):
+    def one(name, path, trunc, steps, graph, backdating=True, only=None):
         d = ctx.sub('mc-' + name)
         kw = dict(constraint='MCBound', extra_defs=MC_DEFS % steps)
         if not graph:
             kw['view'] = 'MCView'
+        props = [only] if only else ['PropOutcome', 'WrittenTogether'] + props_for(prec, path, trunc, backdating)
         mp, cp = tlc.write_mc(d, 'Expiry', 'MC_Expiry', consts_for(['t1', 't2'], path, trunc, rules if not graph else
                                                                     QUICK_RULES, seedrules if not graph else QUICK_SEED,
-                                                                    prec, 9 if thorough else 7),
-                              invariants=['TypeOK', 'UnitUniform'], properties=['PropOutcome'] + props_for(prec), **kw)
+                                                                    prec, 9 if thorough else 7, backdating=backdating),
+                              invariants=['TypeOK'] + (['UnitUniform'] if trunc or not backdating else []), properties=props, **kw)
         results[name] = tlc.run(mp, cp, d, workers=4 if graph else 8, timeout=3000, coverage=False,
                                 dump=os.path.join(d, 'graph') if graph else None)
 
@@ -781,6 +792,11 @@ def model_checks(ctx, prec):
             nm = '%s%s' % (path, '-trunc' if trunc else '')
             jobs.append((nm, path, trunc, 7 if thorough and path == 'meta' else 6, False))
             jobs.append((nm + '-graph', path, trunc, 4, True))
+            if path == 'meta' and not trunc:
+                # without time stamps set back every property holds; with them PropSeedStale is checked on its own
+                jobs.append((nm + '-uniform', path, trunc, 6, False, False))
+                if prec != 'serving':
+                    jobs.append((nm + '-seedstale', path, trunc, 5, False, True, 'PropSeedStale'))
     threads = [threading.Thread(target=one, args=j) for j in jobs]
     for k in range(0, len(threads), 2):
         for t in threads[k:k + 2]:
@@ -788,9 +804,16 @@ def model_checks(ctx, prec):
         for t in threads[k:k + 2]:
             t.join()
     covers = {}
-    for name, path, trunc, steps, graph in jobs:
+    for job in jobs:
+        name, path, trunc, steps, graph = job[:5]
         r = results[name]
         ctx.log('Expiry %s (precedence %s, histories <= %d): %r' % (name, prec, steps, r))
+        if name.endswith('-seedstale'):
+            labels = [a for a, _ in (r.trace or [])[1:]]
+            if r.violated != 'PropSeedStale' or not any(a.startswith('Backdate') for a in labels):
+                raise tlc.MachineryError('Expiry.tla %s: PropSeedStale is expected to fail through Backdate: %r %s' % (name, r, labels))
+            reproduce_counterexample(ctx, r, path, 'file', cause='tiles-of-a-meta-tile-of-different-age-walker-asks-main-tile-only')
+            continue
         if r.violated:
             if not graph:
                 reproduce_counterexample(ctx, r, path, 'sqlite' if trunc else 'file')
@@ -813,7 +836,7 @@ def model_checks(ctx, prec):
     return covers
 
 
-def reproduce_counterexample(ctx, r, path, backend):
+def reproduce_counterexample(ctx, r, path, backend, cause=None):
     """a property fails on the model of the code: it counts only if the real code follows the counterexample"""
     w = World(os.path.join(ctx.sub('cex-world'), path), backend, path, 2)
     try:
@@ -822,7 +845,7 @@ def reproduce_counterexample(ctx, r, path, backend):
         w.close()
     labels = [a for a, _ in r.trace[1:]]
     if res is None:
-        ctx.violation({'kind': 'model-counterexample', 'property': r.violated, 'path': path},
+        ctx.violation(dict({'kind': 'model-counterexample', 'property': r.violated, 'path': path}, **({'cause': cause} if cause else {})),
                       'Expiry.tla (%s path) violates %s and the real code follows the counterexample %s' % (
                           path, r.violated, labels), {'history': labels, 'path': path, 'backend': backend, 'ntiles': 2})
     else:
@@ -1027,6 +1050,19 @@ def unit_script(names):
     ]
 
 
+def mixed_age_script(names):
+    """tiles of one meta tile of different age (single time stamps set back): a request for the old one fetches, whatever
+    the age of the main tile of its meta tile; a request for the new one does not"""
+    t1, t2, t3, t4 = names[:4]
+    return [
+        {'op': 'request', 'tiles': [t1, t2]}, {'op': 'tick', 'd': 4}, {'op': 'set', 'rule': R('time', 0)},
+        {'op': 'backdate', 'tile': t2}, {'op': 'request', 'tiles': [t2]}, {'op': 'tick', 'd': 3},
+        {'op': 'backdate', 'tile': t1}, {'op': 'request', 'tiles': [t2]}, {'op': 'request', 'tiles': [t1]},
+        {'op': 'tick', 'd': 2}, {'op': 'request', 'tiles': [t3, t4]}, {'op': 'tick', 'd': 2}, {'op': 'backdate', 'tile': t4},
+        {'op': 'request', 'tiles': [t3, t4]}, {'op': 'tick', 'd': 2}, {'op': 'backdate', 'tile': t4}, {'op': 'request', 'tiles': [t4, t3]},
+    ]
+
+
 def random_history(rng, world, nops, tally, script=None):
     """drive the real code at random (or along a script), one event per spec action with its observation"""
     events = []
@@ -1058,6 +1094,8 @@ def random_history(rng, world, nops, tally, script=None):
             ev = {'op': 'touch'}
         elif k < 0.78 and any(cache[n][0] >= 0 for n in names):
             ev = {'op': 'remove', 'tile': rng.choice([n for n in names if cache[n][0] >= 0])}
+        elif k < 0.81 and not world.trunc and any(cache[n][0] > 1 for n in names):
+            ev = {'op': 'backdate', 'tile': rng.choice([n for n in names if cache[n][0] > 1])}
         elif k < 0.85:
             ev = {'op': 'recover' if not up else 'fail'}
         else:
@@ -1095,7 +1133,7 @@ def validate_traces(ctx, name, traces, names, path, trunc, prec):
     with open(tf, 'w') as f:
         json.dump(traces, f)
     mp, cp = tlc.write_mc(d, 'Trace_Expiry', 'MC_Trace', consts_for(names, path, trunc, [], [], prec, 10 ** 8),
-                          spec='TraceSpec', properties=props_for(prec), post='TraceAccepted')
+                          spec='TraceSpec', properties=props_for(prec, path, trunc, True), post='TraceAccepted')
     r = tlc.run(mp, cp, d, workers=1, coverage=False, env={'TRACE_FILE': tf}, timeout=3000)
     if r.violated and r.violated.startswith('Prop') and r.trace:
         last = r.trace[-1][1]
@@ -1151,6 +1189,19 @@ def code_to_spec(ctx, prec, tally):
                 ev = ev[:-1]
             if ev:
                 traces.append(ev)
+            if not trunc:
+                # a scripted history: tiles of a meta tile of different age
+                w = make_world(os.path.join(ctx.sub('world'), 'mixed-' + name), backend, path, ntiles, 'direct')
+                try:
+                    ev, err = random_history(ctx.rng, w, 0, tally, script=mixed_age_script(names))
+                finally:
+                    w.close()
+                if err:
+                    ctx.violation({'kind': 'exception', 'op': ev[-1]['op'], 'path': path}, '%s/%s path (mixed age script): %s' % (backend, path, err[1]),
+                                  {'backend': backend, 'path': path, 'ntiles': ntiles, 'mode': 'direct', 'events': ev})
+                    ev = ev[:-1]
+                if ev:
+                    traces.append(ev)
             if not traces:
                 continue
             r, rejected, propfail = validate_traces(ctx, name, traces, names, path, trunc, prec)
